@@ -4,7 +4,9 @@ C31 — core of the model of the C FFI handle layer (c2pa_c_ffi).
 
 * `Reg` + `track/validate/untrack/free` mirror `PointerRegistry` (cimpl/utils.rs): a
   `HashMap<usize,(TypeId, CleanupFn)>`.  The cleanup closure of an entry is represented by
-  the allocation id it would `Box::from_raw`.
+  the allocation id it would `Box::from_raw`.  `free r a t` is `PointerRegistry::free` for
+  `t = .none` (the universal `cimpl_free`) and `PointerRegistry::free_typed` otherwise (the
+  type-specific release functions, `cimpl_free!(p, T)`).
 * `FnRow` is one exported function as the translator (translators/c31_ffi_guards.py) sees
   it: parameters with their declared kind and the ordered list of *uses* of each parameter
   (guard macros of cimpl/macros.rs, `is_null` early returns, raw uses).
@@ -66,11 +68,14 @@ def untrack (r : Reg) (a : Nat) (t : Ty) : Except RegErr (Reg × Entry) :=
     | some e => if e.ty = t then .ok (r.remove a, e) else .error .wrongType
     | none => .error .untracked
 
-/-- `PointerRegistry::free`: NULL is fine, otherwise remove and run the cleanup. -/
-def free (r : Reg) (a : Nat) : Except RegErr (Reg × Option Entry) :=
+/-- `PointerRegistry::free` (`t = .none`: the universal `cimpl_free`, no type check) and
+`PointerRegistry::free_typed` (`t ≠ .none`: `cimpl_free_typed::<T>` behind the type-specific
+release functions): NULL is fine, otherwise remove and run the cleanup; the typed variant
+first compares the tracked type and leaves a pointer tracked with another type alone. -/
+def free (r : Reg) (a : Nat) (t : Ty) : Except RegErr (Reg × Option Entry) :=
   if a = 0 then .ok (r, none)
   else match r.get a with
-    | some e => .ok (r.remove a, some e)
+    | some e => if t = .none ∨ e.ty = t then .ok (r.remove a, some e) else .error .wrongType
     | none => .error .untracked
 
 /-! ### the FfiGuards table -/
@@ -113,6 +118,8 @@ structure FnRow where
   retTy : Ty
   /-- body is the release loop of `c2pa_free_string_array` (recognised by the translator) -/
   freesArray : Bool := false
+  /-- `freesArray`: the type check of the element release (`c2pa_string_free`), `.none` = none -/
+  elemTy : Ty := .none
   /-- a top-level `set_last()` statement: storing the caller's message is the success effect
   (`c2pa_error_set_last`) -/
   setsLast : Bool := false
@@ -212,7 +219,7 @@ def evStep (row : FnRow) (args : List Arg) (w : World) (e : Event) : Except Stop
     | .ok (r, ent) => .ok ({ w with reg := r, cleanups := (ent.alloc, a.a) :: w.cleanups }, [a.a])
     | .error x => .error (.err x.toLast)
   | .free =>
-    match free w.reg a.a with
+    match free w.reg a.a e.ty with
     | .ok (r, some ent) => .ok ({ w with reg := r, cleanups := (ent.alloc, a.a) :: w.cleanups }, [a.a])
     | .ok (_, none) => .ok (w, [])
     | .error x => .error (.err x.toLast)
@@ -252,19 +259,20 @@ def allocStrings : World → List Nat → World × Bool
     let (w2, ok2) := allocStrings w1 as
     (w2, decide (a ≠ 0) && ok1 && ok2)
 
-/-- `c2pa_string_free(elem)` for every element: `cimpl_free` result ignored, the error is
-stored when the element is not tracked. -/
-def freeElems : World → List Nat → World × List Nat × Bool
-  | w, [] => (w, [], true)
+/-- `c2pa_string_free(elem)` for every element (type check `t` of that function): the result
+is ignored; an element that is not tracked (or tracked with another type) stores its error,
+the last one stays (third component, `.none` = every element was released). -/
+def freeElems (t : Ty) : World → List Nat → World × List Nat × LastErr
+  | w, [] => (w, [], .none)
   | w, a :: as =>
-    match free w.reg a with
+    match free w.reg a t with
     | .ok (r, some ent) =>
-      let (w2, fr, ok) := freeElems { w with reg := r, cleanups := (ent.alloc, a) :: w.cleanups } as
-      (w2, a :: fr, ok)
-    | .ok (_, none) => freeElems w as
-    | .error _ =>
-      let (w2, fr, _) := freeElems w as
-      (w2, fr, false)
+      let (w2, fr, e2) := freeElems t { w with reg := r, cleanups := (ent.alloc, a) :: w.cleanups } as
+      (w2, a :: fr, e2)
+    | .ok (_, none) => freeElems t w as
+    | .error x =>
+      let (w2, fr, e2) := freeElems t w as
+      (w2, fr, if e2 = .none then x.toLast else e2)
 
 /-- Does a successful call hand manifest bytes out through an out parameter? -/
 def FnRow.outBytes (row : FnRow) : Option Nat :=
@@ -279,10 +287,10 @@ def finish (w : World) (c : Call) (fr : List Nat) : World × Outcome :=
     match w.arrayAt (argOf c.args 0).a with
     | none => (w, { freed := fr })
     | some ar =>
-      let (w1, fr1, ok) := freeElems w ar.elems
+      let (w1, fr1, le) := freeElems c.row.elemTy w ar.elems
       ({ w1 with arrays := w1.arrays.filter (fun x => x.addr != ar.addr),
                  cleanups := (ar.alloc, ar.addr) :: w1.cleanups },
-       { err := if ok then .none else .untracked, freed := fr ++ fr1 ++ [ar.addr] })
+       { err := le, freed := fr ++ fr1 ++ [ar.addr] })
   else
   match c.row.ret with
   | .handle =>
